@@ -130,7 +130,7 @@ PROPS = {
         level='exploration', bins=WALKER_NAMES, fuzz=fuzz_jobs(300000),
         quick=walk_jobs(WALKER_NAMES, 6000, 40), thorough=walk_jobs(WALKER_NAMES, 20000, 60),
         claim='Guard rounds are segmented from the trace (scripted guards cancel and/or substitute requests of any kind): lifecycle callbacks only after the last guard, exit guards before entry guards, every guard sees the pending list that was requested for its round, every state that is exited/entered/re-entered had its guard invoked in the last approved round, an all-vetoed step leaves active and resumable configuration unchanged (apart from schedule marks), the final configuration equals the model applied to approved rounds only, the per-state exit/enter/re-enter counts equal those the approved rounds lead to, and there are at most SUBSTITUTION_LIMIT rounds (limits 2 and 4). Metamorphic twin run: when every round after the last approved one was vetoed, the whole case is executed again with the guard requests that led to the vetoed rounds neutralised; lifecycle callbacks and active/resumable configuration of every step must be identical (decides overlapping batches without the model).',
-        note='Round boundaries are detected from control.requests().count() inside guards. Trusted: the reference model for the final configuration.',
+        note='Round boundaries are detected from control.requests().count() inside guards. Trusted: the reference model for the final configuration. Known findings F34 and F35 (requests re-resolved when later requests of the step are forwarded) are tolerated only in their exact situation.',
         technique='stateful property-based testing (rapidcheck) with scripted guards; trace invariants + model differential',
     ),
     'C05': dict(
@@ -151,7 +151,7 @@ PROPS = {
         level='exploration', bins=['units_plan'] + ['walk_z06_plans_m', 'walk_z06_plans_bt5', 'walk_z06_plans_p2'],
         quick=[dict(bin='units_plan', cases=40000, size=100)] + walk_jobs(['walk_z06_plans_m', 'walk_z06_plans_bt5', 'walk_z06_plans_p2'], 6000, 40),
         thorough=[dict(bin='units_plan', cases=300000, size=s) for s in (50, 100, 200, 400)] + walk_jobs(['walk_z06_plans_m', 'walk_z06_plans_bt5', 'walk_z06_plans_p2'], 40000, 60),
-        claim='Interleaved append (all seven kinds, cyclic tasks, out-of-region destinations, int payloads) / remove-while-iterating / clear operations across the six regions of a 14-state machine with task capacity 5, 12 and the default are compared, after every operation, with one std::vector per region: iteration order and contents of every plan, append returning false exactly at capacity and changing nothing, freed slots reusable; update() runs the library\'s verifyPlans() with assertions live; canaries around the instance. The plan-heavy walkers additionally edit plans from callbacks while plans execute.',
+        claim='Interleaved append (all seven kinds, cyclic tasks, out-of-region destinations, int payloads) / remove-while-iterating / clear operations across the six regions of a 14-state machine with task capacity 5, 12 and the default (manual activation: also exit()+enter(), which must wipe every plan and return the whole capacity) are compared, after every operation, with one std::vector per region: iteration order and contents of every plan, append returning false exactly at capacity and changing nothing, freed slots reusable; update() runs the library\'s verifyPlans() with assertions live; canaries around the instance. The plan-heavy walkers additionally edit plans from callbacks while plans execute.',
         note='Origins are states of the plan\'s region (documented use).',
         technique='model-based property testing (rapidcheck) of plan storage against per-region vectors',
     ),
@@ -219,14 +219,14 @@ PROPS = {
     ),
     'C17': dict(
         level='exploration', custom='c17', bins=[],
-        claim='Generated machine structures (320 quick / 6000 thorough, up to 320 states (counts beyond 255), width 12, depth 7, headless and width-1 regions, all root kinds, plus the zoo) are compiled with static_asserts that compare stateId<>(), regionId<>() and every published count (states, regions, composite/orthogonal regions, orthogonal units, prongs, serialization bits, default task capacity) with an independent depth-first numbering; every structure is spelled twice (template states and separately named structs) and both must agree. At run time the walkers additionally compare control.stateId() of every callback with the state\'s declared id.',
+        claim='Generated machine structures (320 quick / 6000 thorough, up to 320 states (counts beyond 255), width 12, depth 7, headless and width-1 regions, all root kinds, plus the zoo) are compiled with static_asserts that compare stateId<>(), regionId<>() and every published count (states, regions, composite/orthogonal regions, orthogonal units, prongs, serialization bits, default task capacity) with an independent depth-first numbering; every structure is spelled twice (template states and separately named structs) and both must agree. Run-time half (three zoo machines, generated histories): control.stateId() in every callback equals the declared id, and control.plan() inside update() is plan(<published id of the region the state lives in>).',
         note='The generated input is a program; the oracle is evaluated by the compiler. Trusted: the Python DFS of tools/structgen.py (30 lines, shares nothing with the library\'s type-list arithmetic).',
         technique='generated-program testing: random structures + independently derived static_asserts (compile = evaluate)',
         assumptions=['identifier types are the defaults (Short = uint8_t): structures stay below 128 states'],
     ),
     'C18': dict(
         level='exploration',
-        claim='Randomised op sequences on BitArrayT<N> (16 capacities, views, static and dynamic indices) and (width,value) sequences on bit streams (5 capacities, 8 start alignments) are compared with vector<bool> / value-list models after every op, under ASan+UBSan with the library assertions live. Exploration only: absence of violations is claimed for the explored cases.',
+        claim='Randomised op sequences on BitArrayT<N> (20 capacities from 1 to 520, so that index types wider than 8 bits are covered; views, static and dynamic indices) and (width,value) sequences on bit streams (5 capacities, 8 start alignments) are compared with vector<bool> / value-list models after every op, under ASan+UBSan with the library assertions live. Exploration only: absence of violations is claimed for the explored cases.',
         note='Trusted: the std::vector<bool> model, clang sanitizers. Views are taken inside the capacity; values fit their width; operator& checked one-directionally.',
         technique='model-based property testing (rapidcheck) of containers against std:: models',
         bins=['units_bits'],
@@ -238,7 +238,7 @@ PROPS = {
     ),
     'C19': dict(
         level='exploration',
-        claim='Randomised emplace/remove/clear sequences on TaskListT<void|int, N> and append/bulk-append/copy/clear/write sequences on DynamicArrayT / StaticArrayT (7 capacities) are compared with std::map / std::vector models after every op, canaries around the object, library verifyStructure() assertions live, ASan+UBSan.',
+        claim='Randomised emplace/remove/clear sequences on TaskListT<void|int, N> and append/bulk-append/copy/clear/write sequences on DynamicArrayT / StaticArrayT (10 capacities incl. 255, 256, 257) are compared with std::map / std::vector models after every op, canaries around the object, library verifyStructure() assertions live, ASan+UBSan.',
         note='Trusted: the std:: models. remove() only on live indices. The deliberate break in the full branch of emplace is tolerated here and reported under C11.',
         technique='model-based property testing (rapidcheck) of containers against std:: models',
         bins=['units_pool'],
